@@ -25,7 +25,7 @@ sel_list: sel_item ("," sel_item)*
 sel_item: expr (AS NAME)?
 source: NAME (AS? NAME)?                 -> src_table
       | "(" select ")" AS? NAME          -> src_sub
-join: JOIN NAME ON expr
+join: INNER? JOIN NAME (AS? NAME)? ON expr
 where: WHERE expr
 order: ORDER BY order_item ("," order_item)* DIRECTION?
 order_item: expr
@@ -45,6 +45,7 @@ noeffect: NOEFFECT
          | add_expr CMP add_expr            -> cmp
          | add_expr IN "(" select ")"       -> in_select
          | add_expr IN "(" [expr ("," expr)*] ")" -> in_list
+         | add_expr BETWEEN add_expr AND add_expr -> between
 ?add_expr: atom
          | add_expr ADDOP atom              -> arith
 ?atom: QMARK                               -> qmark
@@ -57,12 +58,16 @@ noeffect: NOEFFECT
      | "(" expr ")"
      | atom COLLATE NAME                   -> collate
 func: NAME "(" [expr ("," expr)*] ")"
+    | NAME "(" STAR ")"
 colref: NAME ("." NAME)?
 
 SELECT.2: /select\b/i
 DISTINCT.2: /distinct\b/i
 FROM.2: /from\b/i
 JOIN.2: /join\b/i
+INNER.2: /inner\b/i
+BETWEEN.2: /between\b/i
+STAR: "*"
 ON.2: /on\b/i
 WHERE.2: /where\b/i
 ORDER.2: /order\b/i
@@ -156,10 +161,39 @@ def parse(query):
     key = norm
     if key not in _cache:
         try:
-            _cache[key] = _parser.parse(norm)
+            _cache[key] = _normalise_aliases(_parser.parse(norm))
         except lark.exceptions.LarkError as e:
             raise SQLSyntax("SQL outside the modelled subset or malformed: %r (%s)" % (norm[:200], str(e)[:200]))
     return Stmt(norm, holes, _cache[key])
+
+
+def _normalise_aliases(tree):
+    """`FROM features AS f ... f.start` -> `FROM features ... features.start`, per SELECT (sub-selects have their own
+    scope but see the outer names, as in SQL).  Only when each table occurs once in that SELECT (no self-join):
+    then an alias is a pure renaming.  Otherwise the tree is left as it is (and the alias stays unknown to the
+    row environments, i.e. undecided)."""
+    def walk(node, outer):
+        if not isinstance(node, lark.Tree):
+            return
+        scope = dict(outer)
+        if node.data == "select":
+            tabs, al = [], {}
+            for ch in node.children:
+                if isinstance(ch, lark.Tree) and ch.data in ("src_table", "join"):
+                    names = [x for x in ch.children if isinstance(x, lark.Token) and x.type == "NAME"]
+                    tabs.append(str(names[0]))
+                    if len(names) > 1:
+                        al[str(names[1])] = (str(names[0]), ch, names[1])
+            if len(set(tabs)) == len(tabs):
+                for a, (t, ch, tok) in al.items():
+                    scope[a] = t
+                    ch.children = [x for x in ch.children if x is not tok and not (isinstance(x, lark.Token) and x.type == "AS")]
+        elif node.data == "colref" and len(node.children) == 2 and str(node.children[0]) in scope:
+            node.children[0] = lark.Token("NAME", scope[str(node.children[0])])
+        for ch in node.children:
+            walk(ch, scope)
+    walk(tree, {})
+    return tree
 
 
 class SQLSyntax(Undecided):
@@ -421,6 +455,12 @@ def eval_expr(n, env):
         if env.subselect is None:
             raise Undecided("sub-select without a relation model")
         return env.subselect(a, sel, env)
+    if d == "between":
+        # x BETWEEN lo AND hi  ==  x >= lo AND x <= hi   (SQL definition)
+        ex = [x for x in c if not isinstance(x, lark.Token)]
+        x, lo, hi = eval_expr(ex[0], env), eval_expr(ex[1], env), eval_expr(ex[2], env)
+        p1, p2 = as_tv(compare(">=", x, lo)), as_tv(compare("<=", x, hi))
+        return TV(_and(p1.t, p2.t), _or(p1.f, p2.f))
     if d == "func":
         raise Undecided("SQL function %s in a row predicate" % c[0])
     raise Undecided("SQL expression node %s" % d)
@@ -525,6 +565,7 @@ def select_info(node, allow_limit=False):
             alias = [str(x) for x in ch.children if isinstance(x, lark.Token) and x.type == "NAME"][-1]
             si.source = ("sub", sub, alias)
         elif ch.data == "join":
+            # INNER JOIN == JOIN; an alias has been rewritten to the table name by _normalise_aliases
             name = [str(x) for x in ch.children if isinstance(x, lark.Token) and x.type == "NAME"][0]
             on = [x for x in ch.children if isinstance(x, lark.Tree)][0]
             si.joins.append((name, on))
@@ -563,8 +604,22 @@ def expr_text(node):
     if node.data in ("int_", "str_", "qmark", "named"):
         return str(node.children[0])
     if node.data == "func":
-        return "%s(%s)" % (node.children[0], ",".join(expr_text(c) for c in node.children[1:]))
+        # function names are case-insensitive; count(*) and count() are the same aggregate (rows of the result)
+        args = [c for c in node.children[1:] if not (isinstance(c, lark.Token) and c.type == "STAR")]
+        return "%s(%s)" % (str(node.children[0]).lower(), ",".join(expr_text(c) for c in args))
     return "%s[%s]" % (node.data, ",".join(expr_text(c) for c in node.children))
+
+
+def select_cols(si):
+    """canonical texts of the projected columns; in a single-table SELECT `<table>.<col>` and `<col>` name the same
+    column, so the qualifier is dropped there"""
+    out = []
+    for c, _ in si.columns:
+        t = expr_text(c)
+        if not si.joins and si.source is not None and si.source[0] == "table" and t.startswith(si.source[1] + ".") and t.count(".") == 1:
+            t = t.split(".", 1)[1]
+        out.append(t)
+    return out
 
 
 def sym_row(table, prefix, nullable=("start", "end", "bin")):
